@@ -55,6 +55,7 @@ func main() {
 	replay := flag.String("replay", "", "replay file: re-evaluate that obligation's property and print the obligation")
 	selfcheck := flag.Bool("selfcheck", false, "run the seeded-break self-validation for the property")
 	list := flag.Bool("list", false, "list obligations with verdicts")
+	trm := flag.String("term", "", "print the E7 terms of the results of module functions whose key contains this string")
 	bnd := flag.String("bounds", "", "evaluate the bounds obligations of module functions whose key contains this string")
 	dump := flag.String("dump", "", "print the SSA of module functions whose key contains this string")
 	flag.Parse()
@@ -65,6 +66,10 @@ func main() {
 		*tier = "quick"
 	}
 	seed, _ := strconv.ParseInt(os.Getenv("VERIF_SEED"), 10, 64)
+	if *trm != "" {
+		dumpTerms(*repo, *trm)
+		return
+	}
 	if *bnd != "" {
 		dumpBounds(*repo, *bnd)
 		return
